@@ -58,6 +58,25 @@ def mutants_of(path, text):
             for nv in ({v + 1, v - 1} - {-1}):
                 new = line[:m.start(1)] + str(nv) + line[m.end(1):]
                 out.append((ln, line, new, f"{v} -> {nv}"))
+    if os.environ.get("MUT_OPS") == "v3":
+        # the lines the first campaign skipped because they contain format!(): code-generating format strings
+        # (literal suffixes, extract_u<W>, arbitrary_int::u<N>, Partial<..>, mask literals); error messages stay excluded
+        out = []
+        swaps = [("internal", "exposed"), ("exposed", "internal"), ("total_number_bits", "number_of_bits"), ("running_mask", "previous_mask"),
+                 ("running_mask", "field_mask")]
+        for ln, line in enumerate(lines):
+            if "format!(" not in line or "bitfield!" in line or "Error" in line or "panic!" in line or "comment" in line or "warning" in line:
+                continue
+            masked = re.sub(r'"(?:[^"\\]|\\.)*"', lambda m: '"' + "_" * (len(m.group(0)) - 2) + '"', line)
+            for a, b in swaps:
+                for m in re.finditer(r"\b" + a + r"\b", masked):
+                    out.append((ln, line, line[:m.start()] + b + line[m.end():], f"{a} -> {b}"))
+            # the width inside the format string itself: u{} -> i{}, extract_u{} -> extract_i{} make no sense; instead perturb the argument
+            m = re.search(r"format!\((\"[^\"]*\"), ([^)]+)\)", line)
+            if m:
+                arg = m.group(2).strip()
+                for rep in (f"{arg} + 1", f"{arg} - 1", f"{arg} * 2", f"{arg} / 2"):
+                    out.append((ln, line, line[:m.start(2)] + rep + line[m.end(2):], f"{arg} -> {rep}"))
     if os.environ.get("MUT_OPS") == "v2":
         out = []
         groups = [["#lowest_bit", "#number_of_bits", "#shift_left", "#shift_right", "#indexed_stride", "#indexed_count"],
@@ -130,7 +149,7 @@ def stage1(m, slot):
 
 def main():
     os.makedirs(SCR, exist_ok=True)
-    res_path = os.path.join(ROOT, "mutcampaign-results.json" if os.environ.get("MUT_OPS") != "v2" else "mutcampaign2-results.json")
+    res_path = os.path.join(ROOT, {"v2": "mutcampaign2-results.json", "v3": "mutcampaign3-results.json"}.get(os.environ.get("MUT_OPS"), "mutcampaign-results.json"))
     done = {}
     if os.path.exists(res_path):
         for r in json.load(open(res_path))["mutants"]:
